@@ -18,6 +18,7 @@ import (
 	recpb "github.com/libp2p/go-libp2p/core/record/pb"
 	"github.com/multiformats/go-multiaddr"
 	"github.com/multiformats/go-multihash"
+	"github.com/multiformats/go-varint"
 	"google.golang.org/protobuf/proto"
 
 	"verifharness/fixture"
@@ -133,6 +134,33 @@ func (f *foreignDomainRecord) MarshalRecord() ([]byte, error) {
 	return json.Marshal(&f.IngestRequest)
 }
 
+func mustJSON(v any) []byte {
+	b, err := json.Marshal(v)
+	if err != nil {
+		panic(err)
+	}
+	return b
+}
+
+// sealRaw builds a signed envelope for an arbitrary domain (record.Seal refuses
+// the empty one), the way record.Seal does for a record's own domain.
+func sealRaw(domain string, payloadType, payload []byte, key crypto.PrivKey) ([]byte, error) {
+	var unsigned []byte
+	for _, f := range [][]byte{[]byte(domain), payloadType, payload} {
+		unsigned = append(unsigned, varint.ToUvarint(uint64(len(f)))...)
+		unsigned = append(unsigned, f...)
+	}
+	sig, err := key.Sign(unsigned)
+	if err != nil {
+		return nil, err
+	}
+	pk, err := crypto.PublicKeyToProto(key.GetPublic())
+	if err != nil {
+		return nil, err
+	}
+	return proto.Marshal(&recpb.Envelope{PublicKey: pk, PayloadType: payloadType, Payload: payload, Signature: sig})
+}
+
 // rawRecord is a record with freely chosen signing domain, payload type and
 // payload bytes.
 type rawRecord struct {
@@ -148,7 +176,7 @@ func (f *rawRecord) UnmarshalRecord([]byte) error   { return nil }
 
 func TestCheck(t *testing.T) {
 	r := vp.New("C18", "exploration",
-		"requests: 48 ingest argument combinations (metadata of 0, 40, 1000 and the maximal 1024 bytes; context ID empty and of the maximal 64 bytes) plus 10 with unusual address strings (non-canonical multiaddr spellings, non-multiaddr strings, repeats, none), register requests with 1..3 addresses, and both kinds with addresses that carry a /p2p component naming the request's own provider, its signer or a third identity (4 forms, alone and next to a plain address); every (signing key, named provider) pair over 4 key types with named = signer, another identity of the same type, and an identity of another type; for sealed envelopes of each key type: every single-bit flip, field-level replacement of key / payload type / payload / signature, envelopes sealed for another domain or replayed to the other reader. Non-trivial: every case except the unaltered own-key request. Distinct = distinct (reader, request, signer, named, alteration).",
+		"requests: 48 ingest argument combinations (metadata of 0, 40, 1000 and the maximal 1024 bytes; context ID empty and of the maximal 64 bytes) plus 10 with unusual address strings (non-canonical multiaddr spellings, non-multiaddr strings, repeats, none), register requests with 1..3 addresses, and both kinds with addresses that carry a /p2p component naming the request's own provider, its signer or a third identity (4 forms, alone and next to a plain address); hand-built ingest requests with sequence numbers 0, 1, 2^63-1 and 2^64-1 sealed with record.Seal and read by the library's reader and through libp2p's typed-record interface of IngestRequest (own and foreign domains); every (signing key, named provider) pair over 4 key types with named = signer, another identity of the same type, and an identity of another type; for sealed envelopes of each key type: every single-bit flip, field-level replacement of key / payload type / payload / signature, envelopes sealed for another domain or replayed to the other reader. Non-trivial: every case except the unaltered own-key request. Distinct = distinct (reader, request, signer, named, alteration).",
 		"accept/reject is judged semantically: an altered byte string that decodes to the same (key, payload type, payload, signature) as the original is not counted as an alteration",
 		"keys: two identities per key type; RSA 2048",
 	)
@@ -349,6 +377,90 @@ func TestCheck(t *testing.T) {
 					}
 				}
 			}
+		}
+	}
+
+	// 1b. the sequence number is a dimension of a request too, and the
+	// constructors always take it from the clock: requests built by hand with
+	// sequence numbers 0, 1 and the largest, sealed the way libp2p seals a
+	// record (record.Seal uses the record's own Domain and Codec), are read by
+	// the library's reader with all their fields; and a genuine request is also
+	// read through libp2p's typed-record interface of IngestRequest
+	// (ConsumeTypedEnvelope: the record's Domain, Codec and UnmarshalRecord),
+	// which refuses the same request sealed for another domain.
+	for _, kt := range kts {
+		signer := fixture.Key(kt, 0)
+		a := ia[5]
+		for _, seq := range []uint64{0, 1, 1<<63 - 1, 1<<64 - 1} {
+			key := fmt.Sprintf("sequence|%s|%d", kt, seq)
+			if !r.Mine(key) {
+				continue
+			}
+			r.Eval(key, true)
+			req := &model.IngestRequest{Multihash: a.mh, ProviderID: signer.ID, ContextID: a.ctx, Metadata: a.md, Addrs: a.addrs, Seq: seq}
+			var env *record.Envelope
+			var serr error
+			if pn, pm := vp.Guard(func() { env, serr = record.Seal(req, signer.Priv) }); pn {
+				r.Violation("ingest:seal-panic", key, firstLine(pm), nil)
+				continue
+			}
+			if serr != nil {
+				r.Violation("ingest:request-with-this-sequence-number-cannot-be-sealed", key, fmt.Sprintf("record.Seal of an ingest request with sequence number %d: %v", seq, serr), nil)
+				continue
+			}
+			data, err := env.Marshal()
+			if err != nil {
+				panic(err)
+			}
+			got, rerr := model.ReadIngestRequest(data)
+			if rerr != nil {
+				r.Violation("ingest:rejected-own-request:by-sequence-number", key, fmt.Sprintf("a request with sequence number %d sealed by its provider was rejected: %v", seq, rerr), nil)
+				continue
+			}
+			if got.ProviderID != signer.ID || got.Seq != seq || ingestFields(got) != ingestFields(req) {
+				r.Violation("ingest:fields-differ:by-sequence-number", key, fmt.Sprintf("read back provider %s seq %d %s, sealed provider %s seq %d %s", got.ProviderID, got.Seq, ingestFields(got), signer.ID, seq, ingestFields(req)), nil)
+				continue
+			}
+			// the typed-record route, for the request sealed above and for one
+			// made by the constructor
+			made, err := model.MakeIngestRequest(signer.ID, signer.Priv, a.mh, a.ctx, a.md, a.addrs)
+			if err != nil {
+				panic(err)
+			}
+			for which, d := range map[string][]byte{"hand-built": data, "constructor-made": made} {
+				dest := &model.IngestRequest{}
+				var tenv *record.Envelope
+				var terr error
+				if pn, pm := vp.Guard(func() { tenv, terr = record.ConsumeTypedEnvelope(d, dest) }); pn {
+					r.Violation("ingest:typed-envelope-panic", key, firstLine(pm), nil)
+					continue
+				}
+				if terr != nil || tenv == nil {
+					r.Violation("ingest:typed-record-route-rejects-own-request", key, fmt.Sprintf("record.ConsumeTypedEnvelope with an IngestRequest as destination rejects a %s request: %v", which, terr), nil)
+					continue
+				}
+				if !bytes.Equal(tenv.PayloadType, dest.Codec()) || dest.ProviderID != signer.ID || (which == "hand-built" && (dest.Seq != seq || ingestFields(dest) != ingestFields(req))) {
+					r.Violation("ingest:typed-record-route-fields-differ", key, fmt.Sprintf("%s request read through ConsumeTypedEnvelope: provider %s seq %d %s", which, dest.ProviderID, dest.Seq, ingestFields(dest)), nil)
+				}
+			}
+			// the same payload sealed for other domains: refused by that route too
+			for _, dom := range []string{"", "indexer-ingest-request-xyz", "libp2p-peer-record"} {
+				fr := &foreignDomainRecord{IngestRequest: *req, domain: dom}
+				fenv, ferr := sealRaw(fr.domain, fr.Codec(), mustJSON(&fr.IngestRequest), signer.Priv)
+				if ferr != nil {
+					panic(ferr)
+				}
+				dest := &model.IngestRequest{}
+				var terr error
+				if pn, pm := vp.Guard(func() { _, terr = record.ConsumeTypedEnvelope(fenv, dest) }); pn {
+					r.Violation("ingest:typed-envelope-panic", key, firstLine(pm), nil)
+					continue
+				}
+				if terr == nil {
+					r.Violation("ingest:typed-record-route-accepts-foreign-domain", key, fmt.Sprintf("an envelope sealed for the domain %q is accepted by ConsumeTypedEnvelope with an IngestRequest (sequence number %d) as destination", dom, seq), nil)
+				}
+			}
+			r.Outcome("sequence-ok")
 		}
 	}
 
